@@ -21,8 +21,16 @@ What is NOT modelled: the search itself (HC4/BT4, fast/normal parser).  It is an
 constraint is the bound `maxAhead` on how far the match finder may run ahead of the symbol start inside one
 `encode_symbol` call (fast: `MATCH_LEN_MAX - 1`, normal: `OPTS - 2`; see `Mode.maxAhead`).
 
-Not modelled either: preset dictionaries, `LZMA2Writer::flush` inside a run (`setFlushing` is defined and
-its invariants are proved, but `writeAll` never calls it), `LZMA2Options::chunk_size`.
+`LZMA2Writer::flush` inside a run: `flush`, `Ev`, `runEv` (`write` / `flush` in any order, then `finish`).  A flush changes
+what the search is shown (bytes stay pending and are shown again later), so the view-independence theorems speak
+about runs without flush (`run`); for runs WITH flush calls `Proofs/EncWindowFlush.lean` proves the memory-safety
+side: the match finder is never run at a position with less history in the buffer than it may look back (ghost flag
+`St.low`), across window moves with pending bytes (`moveOffset` is the statement after the repair `fix: move_window
+keeps the history of the pending bytes`, `moveOffsetPinned` the one before, selected by `Params.pinnedMove` for the
+witness).  The script machine at the end of the file (`scriptRun`) is what the driver runs against the real
+`LZEncoder` (hook `lz_window_script`).
+
+Not modelled either: preset dictionaries, `LZMA2Options::chunk_size`.
 -/
 namespace LzmaVerif.EncWindow
 
@@ -46,6 +54,10 @@ structure Params where
   /-- `true` (always, except in the witness `raw_avail_depends_on_partition`): a view shows
       `min(get_avail(), keep_size_after - (pos - symStart))` bytes; `false`: it shows the raw `get_avail()` -/
   capViews : Bool := true
+  /-- `false` (always, except in the witness `pinned_move_loses_pending_history`): `move_window` computes its offset
+      from the first PENDING byte (the statement after the repair `fix: move_window keeps the history of the pending
+      bytes`); `true`: the statement as it was before (`moveOffsetPinned`), which forgets the pending bytes -/
+  pinnedMove : Bool := false
 deriving Repr
 
 namespace Params
@@ -154,8 +166,24 @@ def Win.init : Win β := { buf := B.init P.bufSize }
 
 def Win.isStarted (w : Win β) : Bool := w.readPos != -1
 
-/-- `move_offset` of `move_window` (the code `debug_assert`s that it is not negative) -/
-def moveOffset (w : Win β) : Nat := alignDown (w.readPos + 1 - (P.keepBefore : Int)).toNat
+/-- `move_offset` of `move_window` AS IT WAS before the repair:
+    `(self.read_pos + 1 - self.keep_size_before as i32) & MOVE_BLOCK_ALIGN_MASK`.  It keeps `keep_size_before - 1 + (0..63)`
+    bytes before `read_pos` - but `process_pending_bytes` rewinds `read_pos` by `pending_size` and runs the match
+    finder there again (witness `pinned_move_loses_pending_history`). -/
+def moveOffsetPinned (w : Win β) : Nat := alignDown (w.readPos + 1 - (P.keepBefore : Int)).toNat
+
+/-- the argument of `& MOVE_BLOCK_ALIGN_MASK` in the repaired `move_window`, before the alignment:
+    `self.read_pos + 1 - self.keep_size_before as i32 - self.pending_size as i32`.  The code `debug_assert`s
+    `move_offset >= 0`; in a release build a negative offset becomes a huge `usize` and `copy_within` panics.
+    `Proofs/EncWindowFlush.lean` (`flush_inv_move_offset`) proves it is at least `MOVE_BLOCK_ALIGN` whenever
+    `fill_window` calls `move_window` in a reachable state, so the `toNat` below never clamps. -/
+def moveOffsetRaw (w : Win β) : Int := w.readPos + 1 - (P.keepBefore : Int) - (w.pendingSize : Int)
+
+/-- `move_offset` of `move_window`:
+    `(self.read_pos + 1 - self.keep_size_before as i32 - self.pending_size as i32) & MOVE_BLOCK_ALIGN_MASK`
+    (with `P.pinnedMove` the statement before the repair) -/
+def moveOffset (w : Win β) : Nat :=
+  if P.pinnedMove then moveOffsetPinned P w else alignDown (moveOffsetRaw P w).toNat
 
 def moveWindow (w : Win β) : Win β :=
   let off := moveOffset P w
@@ -236,6 +264,11 @@ structure St (β : Type) where
   trace : List View := []
   /-- the write loop ran out of fuel (never happens, see `Proofs/EncWindow.lean`) -/
   stuck : Bool := false
+  /-- ghost: the match finder was run (`find_matches` / one iteration of `skip`, also the re-run of pending bytes by
+      `process_pending_bytes`) at a buffer position with fewer than `min(keep_size_before - 1, bytes seen so far)`
+      bytes of history before it in the buffer: a candidate at distance `delta ≤ dict_size` would be read at a
+      negative index (never happens with the repaired `move_window`: `Proofs/EncWindowFlush.lean`) -/
+  low : Bool := false
 
 section
 variable {β : Type} (B : BufOps β) (P : Params) (O : Oracle)
@@ -256,10 +289,15 @@ def mkView (w : Win β) (symAbs : Nat) (ret : Nat) : View :=
   { pos := p, symStart := symAbs, avail := n, mfOk := ret != 0, matchLimit := min ret P.matchLenMax
     ahead := B.slice w.buf r n, back := B.slice w.buf (r - b) b }
 
+/-- at buffer position `read_pos` at least `min(keep_size_before - 1, bytes seen so far)` bytes of history are in
+    the buffer (`base = 0`: nothing was discarded yet) -/
+def histOk (w : Win β) : Bool := decide (w.base = 0) || decide ((P.keepBefore : Int) ≤ w.readPos + 1)
+
 /-- one `find_matches` / one iteration of `skip` -/
 def mfStep (symAbs : Nat) (s : St β) : St β :=
   let r := movePos P s.win
-  { s with win := r.1, trace := mkView B P r.1 symAbs r.2 :: s.trace }
+  { s with win := r.1, trace := mkView B P r.1 symAbs r.2 :: s.trace
+           low := s.low || !(histOk P r.1) }
 
 def advance (symAbs : Nat) : Nat → St β → St β
   | 0, s => s
@@ -331,6 +369,26 @@ def writeAll (s : St β) : List (List Nat) → St β
 def finish (s : St β) : St β :=
   let s1 := setFinishing B P s
   (encodeLoop B P O false (s1.unenc + 1) s1).1
+
+/-- `LZMA2Writer::flush` (lzma2_writer.rs): `set_flushing`, then `while pending_size > 0 { encode_for_lzma2; write_chunk }`
+    = symbols until every byte in the window is coded (chunk ends only re-enter the loop) -/
+def flush (s : St β) : St β :=
+  let s1 := setFlushing B P s
+  (encodeLoop B P O false (s1.unenc + 1) s1).1
+
+/-- what the caller does between construction and `finish` -/
+inductive Ev where
+  | write (part : List Nat)
+  | flush
+deriving Repr
+
+def runEvs (s : St β) : List Ev → St β
+  | [] => s
+  | .write p :: es => runEvs (write B P O s p) es
+  | .flush :: es => runEvs (flush B P O s) es
+
+/-- a whole run with `flush` calls wherever the caller likes: `write` / `flush` in any order, then `finish` -/
+def runEv (evs : List Ev) : St β := finish B P O (runEvs B P O (St.init B P) evs)
 
 /-- the whole run: the views in the order in which the search saw them -/
 def run (parts : List (List Nat)) : St β := finish B P O (writeAll B P O (St.init B P) parts)
@@ -413,5 +471,36 @@ def policyOracle (k : Nat) : Oracle := fun tr =>
     match tr with
     | [] => (1, 1, false)
     | v :: _ => ((v.pos * 7 + k) % (k + 2), (v.pos * 5 + 3) % (k + 1) + 1, (v.pos + 1) % (97 * k) = 0)
+
+/-! ## Script machine for the driver (`encwin.script`, hook `verif_hooks::lz_window_script`)
+
+One operation per pair `(op, n)`, exactly what the hook does with the real `LZEncoder`:
+* `(0, n)` – one `fill_window` call with `n` bytes offered (the bytes used are NOT offered again; `fill_window` takes
+  at most `buf_size - write_pos` of them, so the model offers `min(n, buf_size)`);
+* `(1, _)` – `set_flushing`;  `(2, _)` – `set_finishing`;
+* `(3, n)` – at most `n` times: `if has_enough_data(0) { skip(1) }` (one `move_pos`; like an encoder that codes
+  literals only, `read_ahead = -1`).
+After every operation the positions `(read_pos, read_limit, write_pos, pending_size)` are logged. -/
+
+def scriptStep (P : Params) (s : St Unit) : Nat × Nat → St Unit
+  | (0, n) => if s.win.finishing then s else (fillWindow noBuf P s (List.replicate (min n P.bufSize) 0)).1
+  | (1, _) => setFlushing noBuf P s
+  | (2, _) => setFinishing noBuf P s
+  | (_, n) =>
+    let rec go : Nat → St Unit → St Unit
+      | 0, s => s
+      | k + 1, s => if hasEnoughData s.win 0 then go k (mfStep noBuf P (s.win.base + (s.win.readPos + 1).toNat) s) else s
+    go n s
+
+/-- FNV-1a over the logged positions (integers as 32-bit two's complement) -/
+def scriptLog (h : Nat) (w : Win Unit) : Nat :=
+  let u (x : Int) : Nat := (x % 4294967296).toNat
+  fnvStep (fnvStep (fnvStep (fnvStep h (u w.readPos)) (u w.readLimit)) w.writePos) w.pendingSize
+
+/-- runs the script; returns the final state and the hash of the log -/
+def scriptRun (P : Params) (ops : List (Nat × Nat)) : St Unit × Nat :=
+  ops.foldl (fun (acc : St Unit × Nat) op =>
+    let s := { scriptStep P acc.1 op with trace := [] }
+    (s, scriptLog acc.2 s.win)) (St.init noBuf P, 2166136261)
 
 end LzmaVerif.EncWindow
